@@ -16,7 +16,7 @@
    [float_exact]: the double-precision evaluation of the estimate is exact (page size a
    multiple of 512 and free+watermark+pagecache+slab < 2^61 bytes; vacuous when the
    estimate's watermark formula is not evaluated). *)
-From PV Require Import C08.Spec C08.ProofsRound C08.ProofsVM C08.ProofsSwap C08.ProofsVM2.
+From PV Require Import C08.Spec C08.ProofsRound C08.ProofsVM C08.ProofsSwap C08.ProofsVM2 C08.ProofsBig.
 
 (* ------------------------------------------------------------------ virtual_memory() *)
 (* for every kernel record that has MemTotal and MemFree the call succeeds and returns exactly
@@ -109,6 +109,22 @@ Theorem C08_vm_zoneinfo_any_size : forall k zs1 zs2,
      sp_fallback k = (sp_free k - wl) + ((af + inf) - Z.min ((af + inf) / 2) wl) + (sr - Z.min (sr / 2) wl)).
 Proof. exact vm_zoneinfo_any_size. Qed.
 Print Assumptions C08_vm_zoneinfo_any_size.
+
+(* (e) machines of every size: the zoneinfo built by Spec.big_zoneinfo (line shapes of the running
+   kernel; a pagesets entry per CPU in every zone) is well formed for EVERY number of nodes, zones,
+   CPUs, any watermarks and any filler, hence virtual_memory() over it returns the demanded record *)
+Theorem C08_big_zoneinfo_wf : forall nodes zones cpus lowf fill,
+  forallb wf_zline (big_zoneinfo nodes zones cpus lowf fill) = true.
+Proof. exact big_zoneinfo_wf. Qed.
+Print Assumptions C08_big_zoneinfo_wf.
+
+Theorem C08_vm_exact_big : forall ms ps nodes zones cpus lowf fill,
+  let k := {| k_mem := ms; k_zone := Some (big_zoneinfo nodes zones cpus lowf fill); k_vm := None;
+              k_pagesize := ps; k_sysinfo := (0, 0, 1) |} in
+  wf_meminfo ms = true -> has_total_free k = true -> float_exact k = true ->
+  virtual_memory ps (k_meminfo ms) (Some (k_zoneinfo (big_zoneinfo nodes zones cpus lowf fill))) = Val (spec_vm k).
+Proof. exact vm_exact_big. Qed.
+Print Assumptions C08_vm_exact_big.
 
 (* the float path: for EVERY rounding operator that leaves multiples of 1024 (half units) below
    2^63 alone, the double-precision evaluation int(free - wl + (pc - min(pc/2, wl)) + (sr -
